@@ -1911,6 +1911,10 @@ class Cluster(object):
                 log.debug("Another thread is already handling up status of node %s", host)
                 return
 
+            if self.metadata.get_host(host.endpoint) is not host:
+                # removed while we were waiting for the lock
+                return
+
             if host.is_up:
                 log.debug("Host %s was already marked up", host)
                 return
